@@ -261,12 +261,16 @@ def _doc_lines(style, params, r, inline_types, ind):
             lines += gap
         if lines and lines[-1] == "":
             lines.pop()
-    elif style == "google":
+    elif style in ("google", "google_hanging"):
         if params:
             lines.append(ind + "Args:")
-            for p in params:
+            for i, p in enumerate(params):
                 t = " (%s)" % p["typ"] if (not inline_types and p["typ"]) else ""
-                lines.append(ind + "  %s%s: %s" % (p["name"], t, p.get("doc") or ""))
+                if style == "google_hanging" and i == 0:
+                    # the style guide's second layout: the description starts on the next line, indented further
+                    lines += [ind + "  %s%s:" % (p["name"], t), ind + "      %s" % (p.get("doc") or "")]
+                else:
+                    lines.append(ind + "  %s%s: %s" % (p["name"], t, p.get("doc") or ""))
             lines.append("")
         if r:
             lines.append(ind + "Returns:")
